@@ -144,6 +144,7 @@ class C06(Check):
                 return samples
 
         def h(ctx):
+            ctx.notes["fp_exact_timeout_ms"] = cfg.get("exact_timeout_ms", 240000)
             n_bv = z3.BitVec("n_steps", 8)
             ctx.add_assume(z3.And(z3.UGE(n_bv, lo), z3.ULE(n_bv, hi)))
             n_fp = sx.Array(z3.fpUnsignedToFP(z3.RNE(), n_bv, z3.Float64()), sx.float64)
@@ -157,18 +158,17 @@ class C06(Check):
                 stopped = True
             # branch feasibility is over-approximated in the F sort: decide the
             # path bit-precisely once before posing obligations on it
-            res, _ = ctx.check([])
+            res, _ = ctx.check([], timeout_ms=cfg.get("path_timeout_ms", 240000))
             if res == "unsat":
                 raise core.Infeasible()
-            if res == "unknown":
-                raise core.Inconclusive("fixed-schedule path feasibility unknown")
+            unverified = res == "unknown"  # keep going: failures below are then only candidates
             if stopped:
-                ctx.prove(False, "c06/fixed_terminates", detail={"iterations": smp.n_mutate})
+                ctx.prove(False, "c06/fixed_terminates", detail={"iterations": smp.n_mutate, "path_unverified": unverified})
                 return
             k = smp.n_mutate
             betas = smp.history.beta
             ctx.prove(len(betas) == k, "c06/fixed_history_len")
-            ctx.prove(n_bv == k, "c06/fixed_exact_iterations", detail={"iterations": k})
+            ctx.prove(n_bv == k, "c06/fixed_exact_iterations", detail={"iterations": k, "path_unverified": unverified})
             last = betas[-1]
             if isinstance(last, sx.Array):
                 ctx.prove(z3.fpEQ(sx.term(last), z3.FPVal(1.0, z3.Float64())), "c06/fixed_ends_at_one")
@@ -192,16 +192,26 @@ class C06(Check):
         if fl["cfg"]["kind"] == "loop":
             return _Loop06().to_cex(fl)
         if fl["cfg"]["kind"] == "fixed":
-            return {"cfg": fl["cfg"], "label": fl["label"], "n_steps": int(fl["env"].get("n_steps") or 0), "detail": fl.get("detail")}
+            d = fl.get("detail") or {}
+            cex = {"cfg": fl["cfg"], "label": fl["label"], "n_steps": int(fl["env"].get("n_steps") or 0), "detail": d}
+            if d.get("candidate_from_abstraction") or d.get("path_unverified"):
+                # the bit-precise query did not finish: every n of the block is a
+                # candidate; only a replay on the real code can confirm one
+                cex["n_candidates"] = list(range(fl["cfg"]["lo"], fl["cfg"]["hi"] + 1))
+            return cex
         return beta_step.to_cex(fl)
 
     def replay(self, cex):
         if cex["cfg"]["kind"] == "loop":
             return _Loop06().replay(cex)
         if cex["cfg"]["kind"] == "fixed":
-            ok, msg, info = replay_fixed(cex["n_steps"])
-            cex["_info"] = info
-            return ok, msg
+            for n in [cex["n_steps"]] + list(cex.get("n_candidates", [])):
+                ok, msg, info = replay_fixed(n)
+                cex["_info"] = info
+                if ok:
+                    cex["n_steps"] = n
+                    return ok, msg
+            return False, msg
         ok, msg, info = beta_step.replay_step(cex, PROPS)
         cex["_info"] = info
         return ok, msg
